@@ -77,6 +77,25 @@ Theorem refs_closed_all_defined : forall dc kc sh ov st,
 Proof. exact refs_closed_all_incl. Qed.
 Print Assumptions refs_closed_all_defined.
 
+(* 3'. whole drawings: ANY number of elements of that domain (ids and contexts arbitrary), in any order,
+       hidden ones included, for every diagram class of the tables: if drawing does not raise, every
+       reference in the document - written by a draw function or sitting inside a deployed symbol - has
+       its definition under <defs>.  Proved by an invariant over the drawing loop (deco cache closed under
+       declared dependencies; references so far within the deployed ids), with the per-element and
+       per-symbol facts evaluated over the regenerated tables. *)
+Theorem diagram_refs_closed : forall dc els st,
+  In dc diagram_classes -> Forall (fun e => in_domain dc (e_obj e)) els ->
+  draw_all TBL dc (encode_contents els) = Some st -> incl (doc_refs TBL st) (doc_defs TBL st).
+Proof. exact diagram_refs_closed_lemma. Qed.
+Print Assumptions diagram_refs_closed.
+
+(* 3''. the same for arbitrary tables and arbitrary elements, from the two local conditions *)
+Theorem drawing_closed_from_local : forall (T : tables) dc objs st,
+  tab_closed T -> forallb (obj_closed T dc) objs = true -> draw_all T dc objs = Some st ->
+  incl (doc_refs T st) (doc_defs T st).
+Proof. exact draw_all_closed. Qed.
+Print Assumptions drawing_closed_from_local.
+
 (* 3a. the symbol registry itself: the element a factory returns carries the registry key as id, and
        every reference inside a symbol is defined inside it or inside a declared dependency *)
 Theorem symbol_registry_closed : forall r, In r SYMBOLS ->
@@ -144,5 +163,7 @@ Example ex_hidden_child :
 Proof. reflexivity. Qed.
 Example ex_intround_neg : intround (-(7#5)) = 0%Z /\ intround (5#2) = 3%Z /\ intround (-(5#2)) = (-2)%Z.
 Proof. repeat split. Qed.
+Example ex_in_domain : in_domain [] (mkO KBox (Some [120]) [67;108;97;115;115] [[99]] [] true O O).   (* a labelled Box of class "Class" *)
+Proof. exists (KBox, [67;108;97;115;115]), (true, O, O), []. repeat split; vm_compute; tauto. Qed.
 Example ex_domain_nonempty : In ([] : str) diagram_classes /\ In (@nil (str * sval)) override_menu.
 Proof. split; now left. Qed.
